@@ -267,6 +267,11 @@ class CopyAnalysis:
                         and ann_tokens(self.types.get(f.value.attr, '')) & CONTAINER_WORDS:
                     return 'shallow', f'{U(f.value)}.copy() copies the container but not its mutable elements'
                 return 'fresh', '.copy()'
+            if isinstance(f, ast.Attribute) and f.attr in ('values', 'items', 'keys') and not e.args and (dotted(f.value) or '').startswith(selfname + '.'):
+                # a view of one of the source's own tables: iterating it yields the source's objects themselves
+                if elem_mutable or f.attr != 'keys':
+                    return 'shallow', f'`{U(e)}` is a view of the source\'s table: whatever is built from it holds the source\'s own (mutable) entries'
+                return 'fresh', 'keys of a source table (immutable)'
             if short in COPYING_CTORS and isinstance(f, ast.Name):
                 if elem_mutable and short in ('list', 'set', 'dict', 'tuple', 'frozenset'):
                     return 'shallow', f'{short}(...) copies the container but not its mutable elements'
@@ -639,6 +644,7 @@ def run(ctx: Any, prog: Program) -> None:
 
 
 MUTANTS = [
+    {'id': 'entity_copy_shares_fixup_records', 'file': 'vmf.py', 'find': "            fixup=self._fixup.copy_values() if self._fixup is not None else (),", 'replace': "            fixup=self._fixup._fixup.values() if self._fixup is not None else (),", 'expect': 'C09.P2'},
     {'id': 'side_copy_disp_by_truthiness', 'file': 'vmf.py', 'find': "        if self.is_disp:\n            assert self.disp_pos is not None\n            assert self._disp_verts is not None\n            new_side.disp_flags = self.disp_flags", 'replace': "        if self.is_disp and self.disp_pos and self._disp_verts:\n            new_side.disp_flags = self.disp_flags", 'expect': 'C09.P5'},
     {'id': 'ok_side_copy_disp_by_identity', 'file': 'vmf.py', 'find': "        if self.is_disp:\n            assert self.disp_pos is not None\n            assert self._disp_verts is not None\n            new_side.disp_flags = self.disp_flags", 'replace': "        if self.is_disp and self.disp_pos is not None and self._disp_verts is not None:\n            new_side.disp_flags = self.disp_flags", 'expect': None},
     {'id': 'fixup_copy_var_from_key', 'file': 'vmf.py', 'find': "        return [FixupValue(fix.var, fix.value, fix.id) for fix in self._fixup.values()]", 'replace': "        return [FixupValue(var, fix.value, fix.id) for var, fix in self._fixup.items()]", 'expect': 'C09.P1'},
